@@ -2,11 +2,19 @@
    components are isolated.  Statements only; the proofs are in
    theories/L4Steps/*Proofs.v.  The model (Mangle.v, Stepper.v, Assembly.v)
    follows omega/steps.py with the repaired `_omit_prefix` (fixes/F9.patch);
-   it is tied to the real code by the correspondence run of tools/props/c19.py
-   on every check.  `pick` is an arbitrary choice function. *)
+   it is tied to the real code
+   (T) by translation: tools/py2coq_steps.py regenerates gen/StepsGen.v from
+       the current omega/steps.py on every check and GenProofs/StepsBridge.v
+       proves the generated functions equal to the model
+       (C19_model_is_translated_code below; the C19_translated_* theorems
+       restate the results about the generated definitions), and
+   (H) by the correspondence run of tools/props/c19.py on every check.
+   `pick` is an arbitrary choice function. *)
 From Coq Require Import List Bool String ZArith.
 From Omega Require Import L4Steps.Mangle L4Steps.MangleProofs L4Steps.Stepper
   L4Steps.StepperProofs L4Steps.Assembly L4Steps.AssemblyProofs.
+From OmegaGen Require StepsGen.
+From OmegaGP Require Import StepsBridge.
 Import ListNotations.
 Open Scope string_scope.
 
@@ -74,6 +82,39 @@ Proof.
   - exact (init_ok_sound pick pick_in A WF ROI).
   - exact (init_satisfiable pick pick_none A WF ROI).
   - exact (init_unsatisfiable pick pick_in A WF).
+Qed.
+(* --- the same two theorems about the code translated from steps.py ------
+   [gen_step] / [gen_init] are the generated `AutomatonStepper.step` /
+   `.init` run on the model's dd-level operations (cofactor, support,
+   `pick` over the candidates); see GenProofs/StepsBridge.v *)
+Theorem C19_translated_stepper_step_sound : forall state,
+  state_ok ds state ->
+  (forall r, gen_step A pick state = Ok r ->
+     (forall x, In x (a_impl A) -> In (prime x) (names ds) -> In x (keys r)) /\
+     (forall v, in_dom ds v ->
+        (forall s z, lookup s r = Some z -> v (prime s) = z) ->
+        a_action A (override v state) = true)) /\
+  (support_assigned A state ->
+     (exists v, in_dom ds v /\ a_action A (override v state) = true) ->
+     exists r, gen_step A pick state = Ok r) /\
+  (support_assigned A state ->
+     (forall v, in_dom ds v -> a_action A (override v state) = false) ->
+     gen_step A pick state = Err Disabled) /\
+  (~ support_assigned A state -> gen_step A pick state = Err Missing).
+Proof.
+  intros state. rewrite gen_step_is_model. exact (C19_stepper_step_sound state).
+Qed.
+
+Theorem C19_translated_stepper_init_sound :
+  (forall r, gen_init A pick = Ok r ->
+     (forall k, In k (keys r) -> In k (a_impl A)) /\
+     exists p, r = filter (fun kv => mem (fst kv) (a_impl A)) p /\
+       forall v, in_dom ds v -> (forall x z, lookup x p = Some z -> v x = z) ->
+         a_init A v = true) /\
+  ((exists v, in_dom ds v /\ a_init A v = true) -> exists r, gen_init A pick = Ok r) /\
+  ((forall v, in_dom ds v -> a_init A v = false) -> gen_init A pick = Err Disabled).
+Proof.
+  rewrite (gen_init_is_model A pick WF pick_in). exact C19_stepper_init_sound.
 Qed.
 End Stepper.
 
@@ -264,6 +305,154 @@ Proof.
   - repeat split; vm_compute; reflexivity.
 Qed.
 
+(* ======================================================================
+   Tie T: the model is the translated code.
+   gen/StepsGen.v is regenerated from the current omega/steps.py on every
+   run (strings -> Coq strings; dictionaries -> association lists with
+   Python's own `d[k] = v` = [dset]; `assert` / `raise` -> error values;
+   fields of `self` -> explicit arguments; the dd calls stay parameters).
+   The model writes comprehensions as [filter] and `update` as append, which
+   agrees with the generic dictionary operations exactly on association
+   lists with distinct keys, i.e. on Python dictionaries.  Hence:
+   Leibniz equality for all arguments where no dictionary argument is
+   re-built (`_omit_prefix`, `add_prefix`, `omit_prefix`,
+   `_assert_disjoint`, `_to_local_state`, `History.update`,
+   `AutomatonStepper.step`); equality for all dictionaries with distinct
+   keys ([NoDup (keys d)]) for `visible_vars`, `hidden_vars`, `slice_dict`,
+   `_to_global_state`, `_update_state`; equality for all machines that
+   return dictionaries with distinct keys (implied by [machines_ok]) for
+   `Assembly.init`, `Assembly.step` and whole runs. *)
+Theorem C19_model_is_translated_code :
+  (forall s p, StepsGen._omit_prefix s p = omit1 s p) /\
+  (forall d p, StepsGen.add_prefix d p = add_prefix d p) /\
+  (forall d p, StepsGen.omit_prefix d p = omit_prefix d p) /\
+  (forall a b, StepsGen._assert_disjoint a b
+     = if overlap a b then Err Collision else Ok tt) /\
+  (forall d, NoDup (keys d) -> StepsGen.visible_vars d = visible_vars d) /\
+  (forall d, NoDup (keys d) -> StepsGen.hidden_vars d = hidden_vars d) /\
+  (forall d ks, NoDup (keys d) ->
+     StepsGen.slice_dict d ks = filter (fun kv => mem (fst kv) ks) d) /\
+  (forall G name m,
+     StepsGen.Assembly__to_local_state G name m = to_local G name (m_vars m)) /\
+  (forall local name, NoDup (keys local) ->
+     StepsGen.Assembly__to_global_state local name = to_global local name) /\
+  (forall state partial, NoDup (keys partial) ->
+     StepsGen.Assembly__update_state state partial
+     = update_state state partial) /\
+  (forall (s : dict) past n,
+     StepsGen.History_update s past n = (n, (past ++ [s])%list)) /\
+  (forall ms a, Forall (fun nm => returns_dicts (snd nm)) ms ->
+     StepsGen.Assembly_init ms a = do_init ms a) /\
+  (forall ms a, Forall (fun nm => returns_dicts (snd nm)) ms ->
+     StepsGen.Assembly_step ms a = do_step omit1 ms a) /\
+  (forall ms n, Forall (fun nm => returns_dicts (snd nm)) ms ->
+     gen_run ms n = run omit1 ms n) /\
+  (forall A pick supp state,
+     StepsGen.AutomatonStepper_step pred (m_let A)
+       (fun u => support (free_decls (a_decls A) state) u)
+       (fun u vrs =>
+          pick (candidates (a_decls A) (restrict_decls (a_decls A) vrs) u))
+       (m_varlist A) (m_unprimed supp) m_unprime
+       (a_init A) (a_action A) state
+     = step_core pick A supp state) /\
+  (forall A pick supp,
+     (forall p, pick (candidates (a_decls A) (restrict_decls (a_decls A) supp)
+                        (a_init A)) = Some p -> NoDup (keys p)) ->
+     StepsGen.AutomatonStepper_init pred
+       (fun u =>
+          pick (candidates (a_decls A) (restrict_decls (a_decls A) supp) u))
+       (m_varlist A) (a_init A) (a_action A)
+     = init_core pick A supp).
+Proof. exact model_is_translated_code. Qed.
+
+(* [machines_ok], the hypothesis of the assembly theorems, gives what the
+   equalities need *)
+Theorem C19_machines_ok_return_dicts : forall ms,
+  machines_ok ms -> Forall (fun nm => returns_dicts (snd nm)) ms.
+Proof. exact machines_ok_Forall. Qed.
+
+(* --- the theorems above, about the translated code ---------------------- *)
+(* mangle_roundtrip *)
+Theorem C19_translated_mangle_roundtrip : forall s n m,
+  NoDup (keys s) ->
+  (forall k, In k (keys s) -> In k (m_vars m)) ->
+  own_names_clean n (keys s) ->
+  exists g, StepsGen.Assembly__to_global_state s n = Ok g /\
+    StepsGen.Assembly__to_local_state g n m
+    = Ok (visible_vars s ++ hidden_vars s)%list.
+Proof.
+  intros s n m ND K C. destruct (mangle_roundtrip s n (m_vars m) ND K C) as [g [G L]].
+  exists g. rewrite (to_global_generated_is_model s n ND), to_local_generated_is_model.
+  split; assumption.
+Qed.
+
+(* the local view computed by the translated `_to_local_state` is exact *)
+Theorem C19_translated_local_view_exact : forall G n m,
+  NoDup (keys G) -> no_hidden_keys G ->
+  exists L, StepsGen.Assembly__to_local_state G n m = Ok L /\ NoDup (keys L) /\
+    forall k, lookup k L = if mem k (m_vars m) then spec_local G n k else None.
+Proof.
+  intros G n m. rewrite to_local_generated_is_model. apply to_local_exact.
+Qed.
+
+(* assembly_isolation, for the view computed by the translated code *)
+Theorem C19_translated_assembly_isolation : forall ms outs G c,
+  names_plain ms -> visible_clean ms -> from_outputs ms outs G -> In c ms ->
+  exists L, StepsGen.Assembly__to_local_state G (fst c) (snd c) = Ok L /\
+    forall k z, In (k, z) L ->
+      In k (m_vars (snd c)) /\
+      if is_hidden k
+      then exists rg, In rg outs /\ to_global (fst rg) (fst c) = Ok (snd rg) /\
+                      In (k, z) (fst rg)
+      else exists rg, In rg outs /\ In (k, z) (visible_vars (fst rg)).
+Proof.
+  intros ms outs G c. rewrite to_local_generated_is_model. apply assembly_isolation.
+Qed.
+
+(* collisions of unmangled names are signalled by the translated code *)
+Theorem C19_translated_collisions_signalled : forall p d,
+  ~ NoDup (keys (ren omit1 p d)) -> StepsGen.omit_prefix d p = Err Collision.
+Proof.
+  intros p d. rewrite omit_prefix_generated_is_model.
+  apply omit_prefix_collision_signalled.
+Qed.
+
+(* assembly_step_sound, for behaviours of the translated `Assembly`:
+   `Assembly()`, `init()`, then n times `step()` ([gen_run]) *)
+Theorem C19_translated_assembly_step_sound : forall ms n a,
+  machines_ok ms -> gen_run ms n = Ok a ->
+  (forall G G', consecutive (trace a) G G' -> step_rel ms G G') /\
+  match trace a with G0 :: _ => init_rel ms G0 | [] => False end.
+Proof.
+  intros ms n a MOK. rewrite (run_generated_is_model ms n (machines_ok_Forall ms MOK)).
+  exact (C19_assembly_step_sound ms n a MOK).
+Qed.
+
+(* a refused step changes nothing: in the translated `Assembly.step` every
+   change of `self.state` / `self.past` comes after the last statement that
+   can raise (statement order analysed by the translator, pinned here) *)
+Theorem C19_translated_refused_step_changes_nothing :
+  StepsGen.Assembly_step_commits_last = true.
+Proof. exact assembly_step_commits_last. Qed.
+
+(* the translated code runs: the F9 scenario (components "ab" and "a") on
+   the generated `Assembly.init` / `Assembly.step`, and the mangling round
+   trip on the generated functions *)
+Example C19_translated_code_runs :
+  (exists a, gen_run f9_ms 1 = Ok a /\
+             s_state a = Some [("ab_y", 7%Z); ("u", 0%Z)]) /\
+  StepsGen.Assembly__to_global_state [("u", 1%Z); ("_goal", 2%Z)] "foo"
+  = Ok [("u", 1%Z); ("foo_goal", 2%Z)] /\
+  StepsGen.omit_prefix [("foobar", 3%Z); ("foo_y", 4%Z)] "foo"
+  = Ok [("foobar", 3%Z); ("_y", 4%Z)] /\
+  StepsGen.omit_prefix [("_y", 3%Z); ("foo_y", 4%Z)] "foo" = Err Collision /\
+  StepsGen.Assembly_step f9_ms asm_new = Err Uninit.
+Proof.
+  split; [eexists; split; vm_compute; reflexivity|].
+  repeat split; vm_compute; reflexivity.
+Qed.
+
+
 Print Assumptions C19_stepper_step_sound.
 Print Assumptions C19_stepper_init_sound.
 Print Assumptions C19_mangle_roundtrip.
@@ -277,3 +466,13 @@ Print Assumptions C19_stepper_machine_ok.
 Print Assumptions C19_mangle_refuted.
 Print Assumptions C19_hypotheses_satisfiable.
 Print Assumptions C19_mangle_roundtrip_example.
+Print Assumptions C19_model_is_translated_code.
+Print Assumptions C19_translated_stepper_step_sound.
+Print Assumptions C19_translated_stepper_init_sound.
+Print Assumptions C19_translated_mangle_roundtrip.
+Print Assumptions C19_translated_local_view_exact.
+Print Assumptions C19_translated_assembly_isolation.
+Print Assumptions C19_translated_collisions_signalled.
+Print Assumptions C19_translated_assembly_step_sound.
+Print Assumptions C19_translated_refused_step_changes_nothing.
+Print Assumptions C19_translated_code_runs.
